@@ -141,6 +141,24 @@ func checkC06(r *Run) {
 			}
 		}
 	}
+	// the queue helpers have exactly their vetted callers (a whole-slot delete anywhere else drops other validators' entries)
+	for fn, callers := range map[string][]string{
+		"setUnstakingValidators":    {posK + "SetUnstakingValidator", posK + "deleteUnstakingValidator"},
+		"deleteUnstakingValidators": {posK + "deleteUnstakingValidator"},
+		"deleteUnstakingValidator":  {posK + "FinishUnstakingValidator"},
+	} {
+		if f := r.fn(posK + fn); f != nil {
+			r.callersExactly("C06-R2", fn, r.edgesTo(f), callers)
+		}
+	}
+	if f := r.fn(posK + "deleteUnstakingValidator"); f != nil {
+		// removes only the given address: the slot is deleted only when no other address remains
+		for _, c := range CallsIn(f, posK+"deleteUnstakingValidators") {
+			ok, _ := HasAtom(P.Guards(c, 0), `^\(0 == len\(phi\(`)
+			ok2, _ := HasAtom(P.Guards(c, 0), `^\(len\(phi\(.*\)\) == 0\)$`)
+			r.Check(ok || ok2, "C06-R2", "deleteUnstakingValidator/slot-deleted-only-when-empty", P.InstrPos(c), "whole slot removed only when no address remains", "the whole queue slot is deleted under "+strings.Join(atomStrings(P.Guards(c, 0)), " ; "))
+		}
+	}
 	checkStoreKeyWriters(r, "C06-R2", "x/pos/types", "UnstakingValidatorsKey", []string{posK + "setUnstakingValidators", posK + "deleteUnstakingValidators", posK + "unstakeAllMatureValidators"})
 
 	// ------------------------------------------------------------------ R3
@@ -213,6 +231,10 @@ func checkC06(r *Run) {
 		}
 		r.mustFollowEdge("C06-R5", "unstakeAll/queue-entry-deleted", f, `^`+q("github.com/tendermint/tm-db.Iterator.Valid("+unstIt+")")+`$`, delKey, isNext, "store.Delete(iterator.Key())")
 	}
+	if f := r.fn(posK + "DeleteValidator"); f != nil {
+		r.callersExactly("C06-R5", "DeleteValidator", r.edgesTo(f), []string{posK + "unstakeAllMatureValidators"})
+	}
+	checkStoreKeyWriters(r, "C06-R5", "x/pos/types", "AllValidatorsKey", []string{posK + "SetValidator", posK + "DeleteValidator"})
 	if f := r.fn(posK + "FinishUnstakingValidator"); f != nil {
 		if c := r.oneCall("C06-R5", "FinishUnstaking", f, posK+"deleteUnstakingValidator"); c != nil {
 			r.Check(argTerm(P.callTerm(c), 2).String() == "param:validator", "C06-R5", "FinishUnstaking/leaves-queue", P.InstrPos(c), "removes itself from the queue", "deleteUnstakingValidator receives "+argTerm(P.callTerm(c), 2).String())
@@ -329,6 +351,25 @@ func checkTombstone(r *Run, rule string) {
 		r.Check(got == want, rule, "handleDoubleSign/force-unstakes-offender", P.InstrPos(c), got, "force-unstakes "+got+" ; required the offender re-read from the store")
 	}
 	checkFieldWriters(r, rule, "x/pos/types", "ValidatorSigningInfo", "Tombstoned", []string{posK + "handleDoubleSign"})
+	// a fresh (zero-based) signing info may replace the stored one only when none exists: otherwise Tombstoned / JailedUntil would be wiped
+	if sv := r.fn(posK + "SetValidatorSigningInfo"); sv != nil {
+		r.callersExactly(rule, "SetValidatorSigningInfo", r.edgesTo(sv), []string{posK + "StakeValidator", posK + "handleDoubleSign", posK + "handleValidatorSignature", "x/pos.InitGenesis"})
+		for _, e := range r.edgesTo(sv) {
+			info := argTerm(P.callTerm(e.Site), 3).String()
+			fresh := strings.Contains(info, "zero:signingInfo") || strings.HasPrefix(info, "complit:x/pos/types.ValidatorSigningInfo")
+			if !fresh {
+				continue
+			}
+			n := short(e.Caller.String())
+			addr := argTerm(P.callTerm(e.Site), 2).String()
+			gs := P.Guards(e.Site, 0)
+			ok, _ := HasAtom(gs, `^!`+q(posK+"GetValidatorSigningInfo(param:k, param:ctx, "+addr+")#1")+`$`)
+			ok2, _ := HasAtom(gs, `^!\(x/pos/keeper\.Keeper\)\.GetValidatorSigningInfo\(.*\)#1$`)
+			exact := len(gs) == 1 || n == "x/pos.InitGenesis"
+			r.Check((ok || ok2) && exact, rule, "fresh-signing-info-only-when-absent@"+n, P.InstrPos(e.Site), "a fresh signing info is stored only when none exists",
+				n+" stores a fresh signing info (Tombstoned=false, JailedUntil reset) under {"+strings.Join(atomStrings(gs), " ; ")+"} ; required: exactly when no signing info exists for the address — otherwise re-staking lifts the tombstone and the jail time")
+		}
+	}
 	// the only stores to Tombstoned store the constant true
 	for _, fn := range P.RepoFns {
 		Instrs(fn, func(in ssa.Instruction) {
